@@ -43,9 +43,20 @@ def load_base() -> list[dict]:
     return items
 
 
-def load_safe() -> list[dict]:
+def load_wide() -> list[dict]:
+    """widened variants (tools/build_wide.py): every atom argument doubled, all safe"""
+    path = os.path.join(HERE, "workload", "wide.json")
+    return json.load(open(path, encoding="utf-8")) if os.path.exists(path) else []
+
+
+def load_all() -> list[dict]:
+    """base + extra + wide"""
+    return load_base() + load_wide()
+
+
+def load_safe(wide: bool = False) -> list[dict]:
     """only programs clingo grounds without error (C03 quantifies over safe programs)"""
-    return [b for b in load_base() if b.get("safe")]
+    return [b for b in (load_all() if wide else load_base()) if b.get("safe")]
 
 
 def parse(text: str) -> list:
